@@ -16,6 +16,7 @@ package cache
 //@ # what table operations may write: the CONTENT of the open-addressing tables (never their wiring: which
 //@ # segments exist, which map a segment owns), never the stored values themselves
 //@ frame tableContent := heap(UInt64Map[any].size), heap(UInt64Map[any].hasZeroKey), heap(UInt64Map[any].zeroVal), heap(Pair[any].Key), heap(Pair[any].Value), heap(SegmentUInt64Map[any].count)
+//@ frame pairCells := heap(Pair[any].Key), heap(Pair[any].Value), allelems(Pair[any])
 //@ frame tableGrow := tableContent, heap(UInt64Map[any].data), heap(UInt64Map[any].mask), heap(UInt64Map[any].growAt)
 //@
 //@ # Table operations touch only the tables' own state (types of this package); the stored values
@@ -46,20 +47,115 @@ package cache
 //@   ensures result != nil && result.data != nil && result == m.segments[segIndexOf(m.segmentMask, key)]
 //@
 //@ # frames of the open-addressing table operations (functional contracts: below / work in progress)
-//@ func (*UInt64Map[any]).Get
-//@   trusted
-//@   modifies nothing
-//@ func (*UInt64Map[any]).Put
-//@   trusted
-//@   modifies m.size, m.hasZeroKey, m.zeroVal, m.data, m.mask, m.growAt, elems(m.data)
-//@ func (*UInt64Map[any]).Del
-//@   trusted
-//@   modifies m.size, m.hasZeroKey, m.zeroVal, elems(m.data)
+//@ # ---- C16: the open-addressing table (linear probing, backward-shift deletion). Representation invariant tblInv:
+//@ # shape (mask = len-1 >= 0, a power-of-two mask), PROBE (between a key's home slot and its slot there is no empty slot,
+//@ # cyclically) and UNIQ (no non-zero key twice). Every operation is proved under the premise that tblInv held before
+//@ # (callers need not establish it: the constructor does, and only these functions write the fields).
+//@ uninterp pow2mask(y int) bool
+//@ axiom global and_pow2_id (x int, y int): {x & y} pow2mask(y) && 0 <= x && x <= y ==> x & y == x
+//@ axiom global and_pow2_wrap (y int): {pow2mask(y)} pow2mask(y) ==> y >= 0 && (y + 1) & y == 0
+//@ axiom global and_nonneg_range (x int, y int): {x & y} y >= 0 ==> 0 <= x & y && x & y <= y
+//@ uninterp pidx(key uint64, mask int) int
+//@ pred inCO(a int, x int, b int) := ite(a <= b, a <= x && x < b, x >= a || x < b)
+//@ pred inOC(a int, x int, b int) := ite(a <= b, a < x && x <= b, x > a || x <= b)
+//@ pred tblShape(m *UInt64Map[any]) := m != nil && m.mask >= 0 && len(m.data) == m.mask + 1 && pow2mask(m.mask)
+//@ pred tblProbe(m *UInt64Map[any]) := forall s int, x int :: {m.data[s].Key, m.data[x].Key} 0 <= s && s <= m.mask && 0 <= x && x <= m.mask && m.data[s].Key != 0 && inCO(pidx(m.data[s].Key, m.mask), x, s) ==> m.data[x].Key != 0
+//@ pred tblUniq(m *UInt64Map[any]) := forall s int, t int :: {m.data[s].Key, m.data[t].Key} 0 <= s && s <= m.mask && 0 <= t && t <= m.mask && m.data[s].Key != 0 && m.data[s].Key == m.data[t].Key ==> s == t
+//@ pred tblInv(m *UInt64Map[any]) := tblShape(m) && tblProbe(m) && tblUniq(m)
 //@
-//@ func (*UInt64Map[any]).EvictKeysAt
+//@ axiom global pow2_zero: pow2mask(0)
+//@ axiom global pow2_double (y int): {pow2mask(y)} pow2mask(y) ==> pow2mask(2 * y + 1)
+//@
+//@ # the constructor returns an all-empty power-of-two table, which satisfies the invariant trivially; trusted because its
+//@ # size computation goes through floating point (capacity/0.75), which the generator treats as opaque
+//@ func NewUInt64Map[any]
 //@   trusted
-//@   modifies m.size, m.hasZeroKey, m.zeroVal, elems(m.data)
+//@   ensures tblInv(result) && !result.hasZeroKey && result.size == 0
+//@
+//@ func (*UInt64Map[any]).primaryIndex
+//@   trusted
+//@   note bit mixing of the key: a function of (key, mask); `& mask` with mask >= 0 keeps it within 0..mask
+//@   modifies nothing
+//@   ensures result == pidx(key, m.mask) && (m.mask >= 0 ==> 0 <= result && result <= m.mask)
+//@
+//@ func (*UInt64Map[any]).Get
+//@   nosafety index ovf
+//@   modifies nothing
+//@   loop 1 invariant m != nil && key != 0 && 1 <= i
+//@   loop 1 invariant tblInv(m) ==> 0 <= idx && idx <= m.mask && ite(idx >= pidx(key, m.mask), idx - pidx(key, m.mask), idx - pidx(key, m.mask) + m.mask + 1) == i - 1
+//@   loop 1 invariant tblInv(m) ==> forall x int :: {m.data[x].Key} 0 <= x && x <= m.mask && (x == idx || inCO(pidx(key, m.mask), x, idx)) ==> m.data[x].Key != 0 && m.data[x].Key != key
+//@   ensures m == nil ==> !result1
+//@   ensures m != nil && key == 0 ==> result1 == m.hasZeroKey && (result1 ==> result0 == m.zeroVal)
+//@   ensures m != nil && key != 0 && tblInv(m) && result1 ==> exists s int :: {m.data[s].Key} 0 <= s && s <= m.mask && m.data[s].Key == key && result0 == m.data[s].Value
+//@   ensures m != nil && key != 0 && tblInv(m) && !result1 ==> forall s int :: {m.data[s].Key} 0 <= s && s <= m.mask ==> m.data[s].Key != key
+//@ # growth re-inserts every entry into a larger table (trusted for now: preserves the invariant and the zero-key pair)
+//@ func (*UInt64Map[any]).grow
+//@   trusted
+//@   modifies m.size, m.hasZeroKey, m.zeroVal, m.data, m.mask, m.growAt
+//@   ensures old(tblInv(m)) ==> tblInv(m)
+//@   ensures m.hasZeroKey == old(m.hasZeroKey) && m.zeroVal == old(m.zeroVal)
+//@
+//@ spec probeDist(m *UInt64Map[any], key uint64, idx int) int := ite(idx >= pidx(key, m.mask), idx - pidx(key, m.mask), idx - pidx(key, m.mask) + m.mask + 1)
+//@ func (*UInt64Map[any]).Put
+//@   nosafety index ovf
+//@   requires m != nil
+//@   modifies m.size, m.hasZeroKey, m.zeroVal, m.data, m.mask, m.growAt, pairCells
+//@   loop 1 invariant key != 0 && 1 <= i
+//@   loop 1 invariant old(tblInv(m)) ==> tblInv(m) && 0 <= idx && idx <= m.mask && probeDist(m, key, idx) == i - 1
+//@   loop 1 invariant old(tblInv(m)) ==> forall x int :: {m.data[x].Key} 0 <= x && x <= m.mask && (x == idx || inCO(pidx(key, m.mask), x, idx)) ==> m.data[x].Key != 0 && m.data[x].Key != key
+//@   loop 1 invariant calls("(*internal/cache.UInt64Map[any]).grow") == 0 ==> m.data == old(m.data) && m.mask == old(m.mask) && forall x int :: {m.data[x].Key} {m.data[x].Value} 0 <= x && x <= m.mask ==> m.data[x].Key == old(m.data[x].Key) && m.data[x].Value == old(m.data[x].Value)
+//@   ensures key == 0 ==> m.hasZeroKey && m.zeroVal == val
+//@   ensures old(tblInv(m)) ==> tblInv(m)
+//@   ensures old(tblInv(m)) && key != 0 ==> exists s int :: {m.data[s].Key} 0 <= s && s <= m.mask && m.data[s].Key == key && m.data[s].Value == val
+//@   ensures old(tblInv(m)) && key != 0 && calls("(*internal/cache.UInt64Map[any]).grow") == 0 ==> m.data == old(m.data) && m.mask == old(m.mask) && forall x int :: {m.data[x].Key} 0 <= x && x <= m.mask && old(m.data[x].Key) != 0 && old(m.data[x].Key) != key ==> m.data[x].Key == old(m.data[x].Key) && m.data[x].Value == old(m.data[x].Value)
+//@   ensures old(tblInv(m)) && key != 0 && calls("(*internal/cache.UInt64Map[any]).grow") == 0 ==> forall x int :: {m.data[x].Key} 0 <= x && x <= m.mask && m.data[x].Key != 0 ==> m.data[x].Key == key || m.data[x].Key == old(m.data[x].Key)
+//@ # backward-shift deletion (Knuth 6.4 R): given a table that is well-formed except for ONE hole at slot d, it restores
+//@ # the full invariant by moving later cluster entries back; it invents no entry and loses none
+//@ pred tblProbeEx(m *UInt64Map[any], hole int) := forall s int, x int :: {m.data[s].Key, m.data[x].Key} 0 <= s && s <= m.mask && 0 <= x && x <= m.mask && m.data[s].Key != 0 && inCO(pidx(m.data[s].Key, m.mask), x, s) && x != hole ==> m.data[x].Key != 0
+//@ pred tblHole(m *UInt64Map[any], d int) := tblShape(m) && 0 <= d && d <= m.mask && m.data[d].Key == 0 && tblProbeEx(m, d) && tblUniq(m)
+//@ func (*UInt64Map[any]).backwardShiftDelete
+//@   nosafety index ovf
+//@   requires m != nil
+//@   modifies pairCells
+//@   loop 1 invariant old(tblHole(m, deletedIdx)) ==> tblHole(m, i) && 0 <= j && j <= m.mask
+//@   loop 1 invariant old(tblHole(m, deletedIdx)) ==> forall s int :: {m.data[s].Key} 0 <= s && s <= m.mask && inOC(i, s, j) ==> m.data[s].Key != 0 && inOC(i, pidx(m.data[s].Key, m.mask), s)
+//@   loop 1 invariant old(tblHole(m, deletedIdx)) ==> forall t int :: {m.data[t].Key} 0 <= t && t <= m.mask && m.data[t].Key != 0 ==> exists s int :: {old(m.data[s].Key)} 0 <= s && s <= m.mask && old(m.data[s].Key) == m.data[t].Key && old(m.data[s].Value) == m.data[t].Value
+//@   loop 1 invariant old(tblHole(m, deletedIdx)) ==> forall s int :: {old(m.data[s].Key)} 0 <= s && s <= m.mask && old(m.data[s].Key) != 0 ==> exists t int :: {m.data[t].Key} 0 <= t && t <= m.mask && m.data[t].Key == old(m.data[s].Key) && m.data[t].Value == old(m.data[s].Value)
+//@   ensures old(tblHole(m, deletedIdx)) ==> tblInv(m)
+//@   ensures old(tblHole(m, deletedIdx)) ==> forall s int :: {old(m.data[s].Key)} 0 <= s && s <= m.mask && old(m.data[s].Key) != 0 ==> exists t int :: {m.data[t].Key} 0 <= t && t <= m.mask && m.data[t].Key == old(m.data[s].Key) && m.data[t].Value == old(m.data[s].Value)
+//@   ensures old(tblHole(m, deletedIdx)) ==> forall t int :: {m.data[t].Key} 0 <= t && t <= m.mask && m.data[t].Key != 0 ==> exists s int :: {old(m.data[s].Key)} 0 <= s && s <= m.mask && old(m.data[s].Key) == m.data[t].Key && old(m.data[s].Value) == m.data[t].Value
+//@
+//@ func (*UInt64Map[any]).Del
+//@   nosafety index ovf
+//@   modifies m.size, m.hasZeroKey, m.zeroVal, pairCells
+//@   loop 1 invariant m != nil && key != 0 && 1 <= i && m.mask == old(m.mask) && m.data == old(m.data)
+//@   loop 1 invariant forall x int :: {m.data[x].Key} {m.data[x].Value} m.data[x].Key == old(m.data[x].Key) && m.data[x].Value == old(m.data[x].Value)
+//@   loop 1 invariant old(tblInv(m)) ==> 0 <= idx && idx <= m.mask && probeDist(m, key, idx) == i - 1
+//@   loop 1 invariant old(tblInv(m)) ==> forall x int :: {m.data[x].Key} 0 <= x && x <= m.mask && (x == idx || inCO(pidx(key, m.mask), x, idx)) ==> m.data[x].Key != 0 && m.data[x].Key != key
+//@   assert at call (*internal/cache.UInt64Map[any]).backwardShiftDelete#1: old(tblInv(m)) ==> tblHole(m, arg1)
+//@   assert at call (*internal/cache.UInt64Map[any]).backwardShiftDelete#2: old(tblInv(m)) ==> tblHole(m, arg1)
+//@   ensures m == nil ==> !result
+//@   ensures m != nil && key == 0 ==> result == old(m.hasZeroKey) && !m.hasZeroKey
+//@   ensures m != nil && old(tblInv(m)) ==> tblInv(m)
+//@   ensures m != nil && key != 0 && old(tblInv(m)) ==> forall t int :: {m.data[t].Key} 0 <= t && t <= m.mask ==> m.data[t].Key != key
+//@   ensures m != nil && key != 0 && old(tblInv(m)) ==> result == (exists s int :: {old(m.data[s].Key)} 0 <= s && s <= m.mask && old(m.data[s].Key) == key)
+//@   ensures m != nil && key != 0 && old(tblInv(m)) ==> forall t int :: {m.data[t].Key} 0 <= t && t <= m.mask && m.data[t].Key != 0 ==> exists s int :: {old(m.data[s].Key)} 0 <= s && s <= m.mask && old(m.data[s].Key) == m.data[t].Key && old(m.data[s].Value) == m.data[t].Value
+//@
+//@ # eviction at the scan cursor: never more than n entries, NEVER the protected key `skip` (nor the zero key when it
+//@ # is the protected one), nothing invented, invariant preserved
+//@ func (*UInt64Map[any]).EvictKeysAt
+//@   nosafety index ovf
+//@   modifies m.size, m.hasZeroKey, m.zeroVal, pairCells
+//@   loop 1 invariant m != nil && n > 0 && 0 <= deleted && deleted <= n && m.mask == old(m.mask) && m.data == old(m.data) && m.hasZeroKey == old(m.hasZeroKey) && m.zeroVal == old(m.zeroVal)
+//@   loop 1 invariant old(tblInv(m)) ==> tblInv(m) && 0 <= idx && idx <= m.mask
+//@   loop 1 invariant old(tblInv(m)) && skip != 0 ==> forall s int :: {old(m.data[s].Key)} 0 <= s && s <= m.mask && old(m.data[s].Key) == skip ==> exists t int :: {m.data[t].Key} 0 <= t && t <= m.mask && m.data[t].Key == skip && m.data[t].Value == old(m.data[s].Value)
+//@   loop 1 invariant old(tblInv(m)) ==> forall t int :: {m.data[t].Key} 0 <= t && t <= m.mask && m.data[t].Key != 0 ==> exists s int :: {old(m.data[s].Key)} 0 <= s && s <= m.mask && old(m.data[s].Key) == m.data[t].Key && old(m.data[s].Value) == m.data[t].Value
+//@   assert at call (*internal/cache.UInt64Map[any]).backwardShiftDelete#1: old(tblInv(m)) ==> tblHole(m, arg1)
 //@   ensures 0 <= result && (n <= 0 || result <= n) && (n <= 0 ==> result == 0)
+//@   ensures m != nil && old(tblInv(m)) ==> tblInv(m)
+//@   ensures m != nil && old(tblInv(m)) && skip != 0 ==> forall s int :: {old(m.data[s].Key)} 0 <= s && s <= m.mask && old(m.data[s].Key) == skip ==> exists t int :: {m.data[t].Key} 0 <= t && t <= m.mask && m.data[t].Key == skip && m.data[t].Value == old(m.data[s].Value)
+//@   ensures m != nil && skip == 0 ==> m.hasZeroKey == old(m.hasZeroKey) && m.zeroVal == old(m.zeroVal)
+//@   ensures m != nil && old(tblInv(m)) ==> forall t int :: {m.data[t].Key} 0 <= t && t <= m.mask && m.data[t].Key != 0 ==> exists s int :: {old(m.data[s].Key)} 0 <= s && s <= m.mask && old(m.data[s].Key) == m.data[t].Key && old(m.data[s].Value) == m.data[t].Value
 //@
 //@ # ---- C16: a capped insert holds at most ONE segment lock at any time (writers never nest locks), never
 //@ # asks a segment to evict the key being written (skip == key on every eviction call), and keeps the shared
